@@ -634,9 +634,33 @@ func constKey(c *ssa.Const) string {
 
 func fieldTerm(base *Term, name string, embedded bool, v ssa.Value) *Term {
 	if embedded {
-		return base
+		return projEmbedded(base, "~"+name, v)
 	}
 	return normField(base, name, v)
+}
+
+// projEmbedded steps into an embedded struct: constructed values (new/upd)
+// are projected, opaque values are transparent (field<F>(x) denotes x's
+// promoted field whichever embedded struct declares it).
+func projEmbedded(t *Term, name string, v ssa.Value) *Term {
+	switch t.Op {
+	case "new", "deref":
+		return projEmbedded(t.Args[0], name, v)
+	case "upd":
+		for _, a := range t.Args[1:] {
+			if a.Name == name {
+				return a.Args[0]
+			}
+		}
+		return projEmbedded(t.Args[0], name, v)
+	case "phi":
+		var alts []*Term
+		for _, a := range t.Args {
+			alts = append(alts, projEmbedded(a, name, v))
+		}
+		return mkPhi(v, alts...)
+	}
+	return t
 }
 
 // normField applies the field-projection normalisations.
@@ -706,7 +730,7 @@ func (tm *Terms) build(fr *Frame, v ssa.Value) *Term {
 			name, emb = st.Field(x.Field).Name(), st.Field(x.Field).Embedded()
 		}
 		if emb {
-			return base
+			return projEmbedded(base, "~"+name, v)
 		}
 		return mk("fieldaddr", name, v, base)
 	case *ssa.IndexAddr:
@@ -933,7 +957,7 @@ func pathStep(t *Term, p string, v ssa.Value) *Term {
 	case p == "[]":
 		return mk("elem", "", v, t)
 	case strings.HasPrefix(p, "~"):
-		return t
+		return projEmbedded(t, p, v)
 	}
 	return normField(t, p, v)
 }
